@@ -16,6 +16,7 @@ from fractions import Fraction
 
 import numpy as np
 
+import c04c05_holders as H
 from common import f2h, h2f
 
 EPS = 2.220446049250313e-16
@@ -133,6 +134,22 @@ def gen_case(rng, kind, dyadic=False, batch="none", n=None, code=None, route=Non
     c["layout"] = rng.choice(["BK", "BK", "B1", "1K", "vec"] if R == 1 else ["BK", "BK", "B1", "1K"])
     if names and kind != "Empirical" and rng.random() < (0.3 if kind == "MG94" else 0.6):
         add_updates(rng, c, rng.randint(1, 2))
+    c["holder"] = {nm: rng.choice(H.KINDS) for nm in names} if kind != "Empirical" else {}
+    if kind == "MG94" and not dyadic:
+        # alpha, beta, kappa pairwise different and different from 1 (so that a swapped mask cannot hide)
+        for row in range(len(params["alpha"])):
+            params["alpha"][row] = [rng.uniform(1.5, 3.0)]
+        for row in range(len(params["beta"])):
+            params["beta"][row] = [rng.uniform(0.2, 0.7)]
+        for row in range(len(params["kappa"])):
+            params["kappa"][row] = [rng.uniform(4.0, 8.0)]
+    if kind == "MG94" and dyadic:
+        for row in range(len(params["alpha"])):
+            params["alpha"][row] = [rng.choice([1.5, 2.5, 3.0])]
+        for row in range(len(params["beta"])):
+            params["beta"][row] = [rng.choice([0.25, 0.5, 0.625])]
+        for row in range(len(params["kappa"])):
+            params["kappa"][row] = [rng.choice([4.0, 5.0, 6.5])]
     if not dyadic:
         apply_regime(rng, c, rng.choice(["f64"] * 5 + ["f32default"] * 2 + ["f32in"] * 2))
     if rng.random() < 0.2:
@@ -233,7 +250,20 @@ def add_updates(rng, c, k, which=None):
                 st[name] = [[gen_rate(rng, c["dyadic"]) for _ in range(dim)] for _ in range(rows)]
         ups.append({"set": st})
     c["updates"] = ups
+    if regime_of(c) == "f32in":
+        apply_regime(rng, c, "f32in")  # the new values are float32 numbers too
     return c
+
+
+def state_for(c, k, out):
+    """the case as it stands at step k, every parameter at the values its object actually holds"""
+    cc = state_at(c, k)
+    eff = ((out.get("meta") or {}).get("effective") if isinstance(out, dict) else None) or {}
+    for nm, rows in eff.items():
+        if nm in cc["params"] and len(rows) == len(cc["params"][nm]) and rows != cc["params"][nm]:
+            cc.setdefault("_holder_mismatch", []).append(nm)
+            cc["params"][nm] = rows
+    return cc
 
 
 def state_at(c, k):
@@ -316,8 +346,10 @@ def build(c):
         v = c["params"][name]
         return torch.tensor(v if c["batch"][name] else v[0], dtype=torch.float64).to(in_dtype)
 
+    holders = c.get("holder") or {}
+
     def par(name):
-        PARS[name] = Parameter(name, tens(name))
+        PARS[name] = H.make(holders.get(name, "plain"), "m." + name, tens(name))
         return PARS[name]
 
     PARS.clear()
@@ -371,10 +403,9 @@ def build(c):
     ref = route.get("form") == "ref"
 
     def pjson(name):
-        d = {"id": "m." + name, "type": "Parameter", "tensor": tens(name).tolist()}
-        if regime_of(c) != "f64":
-            d["dtype"] = str(in_dtype)  # the JSON names the dtype when it is not the default one
-        return d
+        # the JSON names the dtype when it is not the default one
+        return H.make_json(holders.get(name, "plain"), "m." + name, tens(name),
+                           str(in_dtype) if regime_of(c) != "f64" else None)
 
     def sub(obj):
         if ref:
@@ -396,11 +427,8 @@ def build(c):
             if data.get("type") != k:
                 raise RuntimeError(f"CLI emitted {data.get('type')} for a {k} request")
             for nm in names:
-                data[nm].pop("full", None)
-                data[nm]["tensor"] = tens(nm).tolist()
-                data[nm]["id"] = "m." + nm
-                if regime_of(c) != "f64":
-                    data[nm]["dtype"] = str(in_dtype)
+                keep = {k_: v_ for k_, v_ in data[nm].items() if k_.startswith("@")}  # the CLI's constraints
+                data[nm] = dict(pjson(nm), **keep)
         elif k == "GeneralNonSymmetric":
             # the literal of cli/evolution.py: create_tree_likelihood_general (identity mapping, no `normalize`,
             # an extra `state_count` key, data type inline)
@@ -515,7 +543,10 @@ def _impl_eval(c, outs, regime, copy):
         if c.get("grad") == "requires_grad":
             for par_ in PARS.values():
                 if par_.tensor.is_floating_point():
-                    par_.requires_grad = True
+                    try:
+                        par_.requires_grad = True
+                    except Exception:  # a view cannot be made a leaf: the vector it views is
+                        getattr(par_, "parameter", par_).requires_grad = True
     except Exception as e:  # an outcome to be judged, not a harness crash
         return [{"status": "raise", "error": (type(e).__name__, str(e)[:200])}]
     n, R = c["n"], c["R"]
@@ -556,7 +587,10 @@ def _impl_eval(c, outs, regime, copy):
         if not all(isinstance(x, torch.Tensor) for x in (Q, fr, P)) or Q.numel() % (n * n) or fr.numel() % n:
             return {"status": "shape", "error": ("shape", f"q()/frequencies/p_t returned {tuple(getattr(Q, 'shape', ()))} "
                                                           f"{tuple(getattr(fr, 'shape', ()))} for n={n}")}
-        out = {"status": "ok", "meta": {"Q_dtype": str(Q.dtype), "P_dtype": str(P.dtype)}}
+        out = {"status": "ok", "meta": {"Q_dtype": str(Q.dtype), "P_dtype": str(P.dtype),
+                                        # the values the parameter objects hold right now, read back
+                                        "effective": {nm: par_.tensor.detach().double().reshape(-1, par_.tensor.shape[-1]).tolist()
+                                                      for nm, par_ in pars.items()}}}
         # the same calls twice give the same answer; nothing handed in was modified
         Q2, P2 = m.q().detach(), m.p_t(ts).detach()
         if not (torch.equal(torch.nan_to_num(Q), torch.nan_to_num(Q2)) and torch.equal(torch.nan_to_num(P), torch.nan_to_num(P2))):
@@ -567,7 +601,8 @@ def _impl_eval(c, outs, regime, copy):
             mutated.append("branch_lengths")
         if mutated:
             out["meta"]["mutated_inputs"] = mutated
-        Q, fr, P = Q.double(), fr.double(), P.double()
+        # copies: a view parameter is later reassigned IN PLACE into the tensor these would otherwise alias
+        Q, fr, P = Q.double().clone(), fr.double().clone(), P.double().clone()
         Qn = Q.reshape(-1, n, n).numpy()
         out["Q"] = [Qn[s if Qn.shape[0] > 1 else 0] for s in range(R)]
         frn = fr.reshape(-1, n).numpy()
@@ -738,6 +773,56 @@ def _tol_for(A, freqs):
     return 1e-10 + 100 * EPS * na * kap
 
 
+_TABLES = {}
+
+
+def mg94_spec(code):
+    """for one genetic code, from the genetic-code STRING and the triplet list read from the source text (AST, not the
+    library at run time): sense codons in order, and for every pair differing at exactly one position whether the
+    change is a transition and whether it is synonymous"""
+    if "t" not in _TABLES:
+        import sys
+        from common import REPO, VERIF
+
+        sys.path.insert(0, str(VERIF / "harness" / "translators"))
+        import tr_subst
+
+        _TABLES["t"] = tr_subst.read_tables(REPO)
+    t = _TABLES["t"]
+    table, trip = t["tables"][code], t["triplets"][:64]
+    sense = [(trip[i], table[i]) for i in range(64) if table[i] != "*"]
+    purines = {"A", "G"}
+    pairs = {}
+    for i, (c1, a1) in enumerate(sense):
+        for j, (c2, a2) in enumerate(sense):
+            diff = [p for p in range(3) if c1[p] != c2[p]]
+            if len(diff) == 1:
+                x, y = c1[diff[0]], c2[diff[0]]
+                pairs[(i, j)] = ((x in purines) == (y in purines), a1 == a2)
+    return len(sense), pairs
+
+
+def mg94_oracle(c, out):
+    """every one-nucleotide codon pair: q_ij / pi_j = (kappa if transition) * (alpha if synonymous else beta)"""
+    bad = []
+    n, pairs = mg94_spec(c["code"])
+    if n != c["n"]:
+        return [("mg94_exchangeabilities", {"sense_codons": n, "state_count": c["n"]})]
+    for s in range(c["R"]):
+        ps = s if c["S"] > 1 else 0
+        a, b, k = (slice_param(c, nm, ps)[0] for nm in ("alpha", "beta", "kappa"))
+        Q, fr = out["Q"][s], out["freqs"][s]
+        tol = 1e-4 if low_precision(c) else 1e-12
+        for (i, j), (ts, syn) in pairs.items():
+            want = (k if ts else 1.0) * (a if syn else b)
+            got = Q[i, j] / fr[j]
+            if abs(got - want) > tol * max(abs(want), 1e-300):
+                bad.append(("mg94_exchangeabilities", {"slice": s, "i": i, "j": j, "transition": ts, "synonymous": syn,
+                                                       "q_ij/pi_j": float(got), "expected": float(want)}))
+                return bad
+    return bad
+
+
 def unnormalised_requested(c):
     """`normalize: false` explicitly given to GeneralNonSymmetric: the options name an un-normalised process, so the
     statement `P = exp(t q()/norm)` is not demanded (everything else is)"""
@@ -758,6 +843,11 @@ def oracle(c, out):
     for key in ("not_repeatable", "mutated_inputs", "original_changed_by_updates_on_its_deepcopy"):
         if meta.get(key):
             bad.append((key, {"value": meta[key]}))
+    if c["kind"] == "MG94":
+        try:
+            bad += mg94_oracle(c, out)
+        except Exception as e:  # an unreadable table is a recorded outcome
+            bad.append(("mg94_exchangeabilities", {"error": repr(e)[:200]}))
     if meta:
         lowp = f32in or (regime == "f32default" and c["kind"] in ("LG", "WAG"))
         want_p = "torch.float32" if lowp else "torch.float64"
